@@ -29,7 +29,7 @@ RULE = (
 )
 BOUNDS = {
     "quick": "8 fixtures; regions: each parse-info block (9 bytes after the prefix), 2 seeded 1-byte windows per picture/fragment unit, every second byte of the sequence header of hq_min, the 4 prefix bytes, truncation anywhere; declared sizes <= dec.RESOURCE_BOUNDS",
-    "thorough": "all fixtures; regions as C02 thorough without the adjacent-block pairs",
+    "thorough": "all fixtures; the C02 quick region set at full width (2 seeded 2-byte windows per picture/fragment unit, every 2-byte window over the sequence header of 2 fixtures)",
 }
 OUTSIDE = (
     "regions larger than the bound; streams declaring sizes above the resource bounds; text rendering of symbolic values is "
@@ -65,7 +65,7 @@ def tasks(tier, seed):
     for name in names:
         meta = idx[name]
         data, _ = dec.fixture(name)
-        for label, regions in c02._regions_for(name, meta, data, tier, rnd):
+        for label, regions in c02._regions_for(name, meta, data, "quick", rnd):  # C02's thorough region set is beyond this check's budget (two decoder runs per path)
             if "+" in label:
                 continue
             if tier == "quick" and label.startswith("u"):
